@@ -6,6 +6,7 @@ package main
 import (
 	"fmt"
 	"os"
+	"reflect"
 	"runtime"
 	"sync"
 	"time"
@@ -53,12 +54,18 @@ func c13Race(seed uint64, n int) error {
 	return nil
 }
 
+// c13RaceExt: an external lookup that knows nothing (installing and removing it is the operation of interest)
+type c13RaceExt struct{}
+
+func (c13RaceExt) Get(string) (reflect.Value, error) { return reflect.Value{}, fmt.Errorf("unknown") }
+func (c13RaceExt) Type(string) (reflect.Type, error) { return nil, fmt.Errorf("unknown") }
+
 func c13RaceOp(rnd *Rand, next *int) c12Op {
 	keys := []string{"a", "b", "p"}
 	k := keys[rnd.Intn(3)]
 	*next++
 	v := &c12Val{Tok: *next, Env: -1}
-	kinds := []string{"Define", "Set", "Get", "Delete", "DeleteGlobal", "Symbols", "DefineType", "Type", "TypeSymbols", "Snap", "String", "Addr", "DeepCopy", "Path"}
+	kinds := []string{"Define", "Set", "Get", "Delete", "DeleteGlobal", "Symbols", "DefineType", "Type", "TypeSymbols", "Snap", "String", "Addr", "DeepCopy", "Path", "SetExt", "SetExt"}
 	return c12Op{K: kinds[rnd.Intn(len(kinds))], E: 1, S: k, V: v, T: 1 + *next%7}
 }
 
@@ -94,5 +101,11 @@ func c13RaceApply(envs []*env.Env, op c12Op) {
 		e.DeepCopy()
 	case "Path":
 		e.GetEnvFromPath([]string{op.S})
+	case "SetExt":
+		if op.T%2 == 0 {
+			e.SetExternalLookup(nil)
+		} else {
+			e.SetExternalLookup(c13RaceExt{})
+		}
 	}
 }
